@@ -1210,6 +1210,23 @@ def pop_on_exit(stack: list[tuple[T, T]], left: T, right: T) -> Iterator[None]:
     stack.pop()
 
 
+@contextmanager
+def protocol_assumption(
+    stack: list[tuple[Instance, Instance]], left: Instance, right: Instance
+) -> Iterator[None]:
+    """Assume left <: right while the members of the protocol are being compared."""
+    stack.append((left, right))
+    type_state.protocol_check_depth += 1
+    try:
+        yield
+    finally:
+        stack.pop()
+        type_state.protocol_check_depth -= 1
+        if not type_state.protocol_check_depth:
+            # Every assumption that was relied on has now been verified or refuted.
+            type_state.protocol_assumption_used = False
+
+
 def is_protocol_implementation(
     left: Instance | TupleType,
     right: Instance,
@@ -1257,8 +1274,10 @@ def is_protocol_implementation(
     assuming = right.type.assuming_proper if proper_subtype else right.type.assuming
     for l, r in reversed(assuming):
         if l == left and r == right:
+            # Answers that rest on this assumption must not be cached until it is verified.
+            type_state.protocol_assumption_used = True
             return True
-    with pop_on_exit(assuming, left, right):
+    with protocol_assumption(assuming, left, right):
         for member in right.type.protocol_members:
             if member in members_not_to_check:
                 continue
